@@ -7,6 +7,7 @@ import (
 	"sort"
 	"strings"
 	"testing"
+	"time"
 
 	"verifharness/evid"
 
@@ -29,6 +30,9 @@ type c19Scenario struct {
 	Reply      string   `json:"reply"`   // ack, nak, ack_then_minus, ack_split, ack_reversed, two_ls
 	Outcome    string   `json:"outcome"` // 903, 904, 908
 	Stray      bool     `json:"stray_authenticate"`
+	EarlyEnd   bool     `json:"early_outcome"` // the server ends SASL (outcome numerics) without ever asking for the data
+	Cycles     int      `json:"cycles"`        // the same client negotiates again after a reconnect (0/1 = once)
+	LateNak    bool     `json:"late_nak"`      // after everything else the server NAKs a request naming a capability that is held
 }
 
 // capModel is the negotiation model written from the property statement.
@@ -117,11 +121,39 @@ func runC19(sc *c19Scenario) *Violation {
 		}
 	}})
 	defer tc.shutdown()
+	m := newCapModel(sc)
+	disc := make(chan struct{}, 4)
+	tc.C.HandleFunc(client.DISCONNECTED, func(*client.Conn, *client.Line) { disc <- struct{}{} })
+	cycles := sc.Cycles
+	if cycles < 1 {
+		cycles = 1
+	}
+	for cycle := 0; cycle < cycles; cycle++ {
+		if cycle > 0 {
+			go tc.C.Close()
+			select {
+			case <-disc:
+			case <-time.After(stallTimeout()):
+				return violationf("C19", "no DISCONNECTED between negotiation cycles")
+			}
+			waitCond(stallTimeout(), func() bool { n, _, _ := connGoroutines(tc.C); return n == 0 })
+			m.awaiting = false // a new connection starts a new SASL exchange; what was advertised / held is kept
+		}
+		if v := runC19Once(sc, tc, m, cycle); v != nil {
+			if cycle > 0 {
+				v.Msg = fmt.Sprintf("negotiation %d on the same client (after a reconnect): %s", cycle+1, v.Msg)
+			}
+			return v
+		}
+	}
+	return nil
+}
+
+func runC19Once(sc *c19Scenario, tc *testClient, m *capModel, cycle int) *Violation {
 	if err := tc.connect(); err != nil {
 		return violationf("C19", "connect: %v", err)
 	}
 	conn := tc.conn()
-	m := newCapModel(sc)
 	pos := 0
 	sawEnd := false
 	// step sends server lines and returns the CAP / AUTHENTICATE lines the client wrote in response
@@ -263,13 +295,17 @@ func runC19(sc *c19Scenario) *Violation {
 		if !m.awaiting {
 			return nil
 		}
-		want := m.onAuthPlus()
-		got, v := step("AUTHENTICATE +")
-		if v != nil {
-			return v
-		}
-		if v := expectLines("server asked for SASL data", got, want); v != nil {
-			return v
+		if !sc.EarlyEnd {
+			want := m.onAuthPlus()
+			got, v := step("AUTHENTICATE +")
+			if v != nil {
+				return v
+			}
+			if v := expectLines("server asked for SASL data", got, want); v != nil {
+				return v
+			}
+		} else {
+			m.awaiting = false // the exchange is over without the data ever being requested
 		}
 		var lines []string
 		switch sc.Outcome {
@@ -343,6 +379,19 @@ func runC19(sc *c19Scenario) *Violation {
 			}
 		}
 	}
+	if sc.LateNak {
+		// a refused later request names a capability that is held: nothing changes on the server
+		got, v := step(":irc.server CAP me NAK :" + req[0] + " not-offered")
+		if v != nil {
+			return v
+		}
+		if v := expectLines("after a late NAK", got, []string{"CAP END"}); v != nil {
+			return v
+		}
+		if v := checkHeld("after a late NAK naming a held capability"); v != nil {
+			return v
+		}
+	}
 	if !sawEnd {
 		return violationf("C19", "script finished but the last negotiation line the client sent is not CAP END")
 	}
@@ -399,6 +448,11 @@ func TestC19_Enum(t *testing.T) {
 								continue
 							}
 							sc := &c19Scenario{Wanted: wanted, Sasl: sm, Authzid: "", User: "user", Pass: "p w", Advertised: adv, Reply: reply, Outcome: outcome, Stray: stray}
+							// three more binary dimensions, spread over the enumeration rather than multiplied into it
+							sc.EarlyEnd, sc.LateNak = i%3 == 0, i%5 == 0
+							if i%2 == 0 {
+								sc.Cycles = 2
+							}
 							if sm == "EXTERNAL" && len(wanted)%2 == 1 {
 								sc.Authzid = "ident"
 							}
@@ -437,7 +491,7 @@ func genC19(t *rapid.T) *c19Scenario {
 	universe = uniqStrings(universe)
 	sc := &c19Scenario{Sasl: rapid.SampledFrom([]string{"", "PLAIN", "EXTERNAL"}).Draw(t, "sasl"),
 		Reply: rapid.SampledFrom([]string{"ack_split", "ack_split", "nak", "ack", "two_ls", "ack_reversed"}).Draw(t, "reply"), Outcome: rapid.SampledFrom([]string{"903", "904", "908"}).Draw(t, "outcome"),
-		Stray: rapid.Bool().Draw(t, "stray")}
+		Stray: rapid.Bool().Draw(t, "stray"), EarlyEnd: rapid.Bool().Draw(t, "early_end"), LateNak: rapid.Bool().Draw(t, "late_nak"), Cycles: rapid.IntRange(1, 3).Draw(t, "cycles")}
 	for _, c := range universe {
 		switch rapid.IntRange(0, 3).Draw(t, "membership") {
 		case 0:
